@@ -32,6 +32,29 @@ def hash_seeds(seed: int, count: int) -> List[int]:
     return seeds
 
 
+def tie_groups(scenario: Dict[str, Any]) -> int:
+    """ how many groups of >= 2 items the scenario contains that tie on the primary sort key of the stage
+        they feed (equal start of hits on one gene, equal scores of overlapping hits, equal core start or
+        equal location of protoclusters, genes hit by several profiles / rules): the measured basis of
+        'non-trivial' for this engine """
+    from collections import Counter
+    kind = scenario["kind"]
+    if kind in ("refine", "hmmer_overlap"):
+        counts = Counter((hit["cds"], hit["start"]) for hit in scenario["hits"])
+    elif kind == "filter":
+        counts = Counter((hit["cds"], hit["bitscore"]) for hit in scenario["hits"])
+    elif kind == "candidates":
+        protos = scenario["record"]["protos"]
+        counts = Counter(("loc", str(p["loc"])) for p in protos) + Counter(("core", p["core"][0][0]) for p in protos)
+    elif kind == "detect":
+        counts = Counter(hit["cds"] for hit in scenario["hits"])
+    else:
+        counts = Counter((hit["cds"], hit["bitscore"]) for hit in scenario["hits"])
+        for table in scenario.get("domain_hits", {}).values():
+            counts += Counter((hit["cds"], hit["start"]) for hit in table)
+    return sum(1 for value in counts.values() if value >= 2)
+
+
 def _stage_class(kind: str, stage: str) -> str:
     if stage.startswith("file:"):
         name = stage[5:]
@@ -485,7 +508,7 @@ class HashSeedEngine(Engine):
         res["digest"] = digest([[name, digest(text)] for a in answers for name, text in sorted(a["texts"].items())
                                 if not name.startswith("_")])
         res["sig"] = digest({k: v for k, v in scenario.items() if k != "configs"})
-        res["nontrivial"] = True
+        res["nontrivial"] = tie_groups(scenario) > 0
         return res
 
     def _compare(self, scenario: Dict[str, Any], configs: List[List[int]], texts: List[Dict[str, str]],
@@ -629,7 +652,10 @@ class HashSeedEngine(Engine):
                 continue
             scenario = self.generate(run_rng(prop, seed, i), cfg, prop)
             kind = scenario["kind"]
+            ties = tie_groups(scenario)
+            summary["nontrivial"] = ties > 0
             summary["probes"][f"kind_{kind}"] = 1
+            summary["probes"]["tie_groups"] = ties
             summary["faults"]["hash_seed_schedules"] = k
             stage_digests = [row[3] for row in rows]
             if any("exception" in d for d in stage_digests):
